@@ -17,9 +17,9 @@ namespace sim
       template< typename Top, pegtl::apply_mode A, pegtl::rewind_mode M, typename In >
       bool do_parse( In& in, sim_state& root, RunResult& out )
       {
-#if SIM_SET == 4
+#if SIM_SET == 4 || SIM_SET == 9
          W.in_library = true;
-         auto t = pegtl::parse_tree::parse< Top, pegtl::parse_tree::node, sim_selector, sim_action, sim_control >( in, root );
+         auto t = pegtl::parse_tree::parse< Top, pegtl::parse_tree::node, sim_selector, sim_action, SET_TREE_BASE >( in, root );
          W.in_library = false;
          out.have_tree = true;
          out.tree_null = !t;
@@ -95,7 +95,7 @@ namespace sim
       {
          using pegtl::apply_mode;
          using pegtl::rewind_mode;
-#if SIM_SET == 4 || SIM_SET == 5
+#if SIM_SET == 4 || SIM_SET == 5 || SIM_SET == 9
          (void)a;
          (void)m;
          return do_parse< Top, apply_mode::action, rewind_mode::optional >( in, root, out );  // the facility's own entry point fixes A and M
